@@ -86,6 +86,15 @@ def build(w, variant):
     # abandoned transaction: marker 25 h old
     _put(w, "data/auto_abandoned00.parquet", b"abandoned")
     _put(w, "metadata/inflight/auto_abandoned00.parquet.inflight", json.dumps({"file_path": "data/auto_abandoned00.parquet"}).encode())
+    # crash leftover: a never-committed metadata file carrying the same version number as the current one (content of the previous version)
+    import re as _re
+
+    vcur = read_view(w.fs(), rows=False)
+    mlog = vcur["metadata_log"]
+    if mlog:
+        prev_bytes = w.fs().get(mlog[-1]["metadata-file"])
+        num = _re.match(r"v(\d+)", vcur["metadata_file"]).group(1)
+        _put(w, f"metadata/v{num}-0badc0de.metadata.json", prev_bytes)
     # orphans
     _put(w, "data/orphan_old.parquet", b"orphan")
     _put(w, "metadata/manifests/manifest_orphan_old.avro", b"orphan")
